@@ -308,12 +308,12 @@ def check_C02(tier, seed):
                       'no warning implies residual(x_best) <= 1e4*tol = 1e-9, for every stream of norms (NaN included, after the fix); '
                       '(2) on the programs regenerated from _residual/_jacobian: residual(x+eps h) = residual(x) + eps J(x)h + eps^2 A + eps^3 B '
                       'for every state, direction, eps and linear differentiation operator; (3) sigma[0] = sigma0 and iotaN = iota + helicity*nfp '
-                      'from the regenerated glue of solve_sigma_equation. NOT proved: agreement of iota with a shooting solution of the continuous '
+                      'from the regenerated glue of solve_sigma_equation; (4) the discretised equation IS the sigma equation of the construction: from the regenerated _residual, init_axis and r1_diagnostics programs, a solution of the residual makes the poloidally averaged O(r^2) Boozer condition of the geometry vanish, and that condition is (spsi B0 kappa^2 / 2 etabar^2) times the sigma equation written independently in props/C01_spec.v (props/C01_r1.v: sigma_residual_zero, pol3_avg_identity; part of this check). NOT proved: agreement of iota with a shooting solution of the continuous '
                       'ODE as nphi grows (a convergence theorem for pseudo-spectral collocation; the harness compares with an independent DOP853 shooting solution and an independent winding number). The order facts about IEEE comparisons '
                       '(ltb transitive / irreflexive, ltb-leb transitivity) that the generic Newton theorems assume are PROVED for binary64 primitive floats including NaN, infinities and signed zeros (theories/FloatOrder.v, from the '
                       'standard library\'s specification axioms ltb_spec, leb_spec, eqb_spec of Coq.Floats.FloatAxioms), and the Newton theorems are instantiated on PrimFloat with no premise left.',
-                      gprops=False, seq_obligations=['props/C02.v'], theory_obligations=['Newton', 'FloatOrder'],
-                      theorems=['C02_jacobian_exact', 'C02_sigma0_pinned', 'Newton.never_worse_than_initial', 'Newton.no_warning_means_best_small',
+                      gprops=False, seq_obligations=[['props/C02.v', 'props/C04_spec.v'], 'props/C01_spec.v', 'props/C01_common.v', 'props/C01_r1.v'], theory_obligations=['Newton', 'FloatOrder'],
+                      theorems=['C02_jacobian_exact', 'C02_sigma0_pinned', 'C01_r1.sigma_residual_zero', 'C01_r1.pol3_avg_identity', 'C01_r1.C01_r1_h0', 'C01_r1.C01_r1_hN', 'Newton.never_worse_than_initial', 'Newton.no_warning_means_best_small',
                                 'Newton.accepted_chain_decreasing', 'Newton.nan_always_warns',
                                 'FloatOrder.float_ltb_trans', 'FloatOrder.float_ltb_irrefl', 'FloatOrder.float_ltb_leb_trans', 'FloatOrder.newton_never_worse_float',
                                 'FloatOrder.newton_accepted_chain_decreasing_float', 'FloatOrder.newton_no_warning_means_best_small_float', 'FloatOrder.newton_nan_initial_float'])
@@ -523,9 +523,9 @@ def check_C18(tier, seed):
                       '(Dspec_aliasing_bound; sharp, attained by sin 2x on 3 points), the interpolant from the function at every real x by at most 2 * sum_{k > n/2} (|a_k| + |b_k|) (kinterp_aliasing_bound, attained), and the periodic trapezoid sum '
                       'equals L*(a_0 + a_n + a_2n + ...) -- exactly the integral (is_RInt) when K < n (trapezoid_rule, trapezoid_exact_RInt); resolved to eps at n0 implies within eps at every larger odd n (Dspec_resolved_onwards, '
                       'kinterp_resolved_onwards), and a band-limited profile gives an eventually constant sequence (band_limited_exact). Even-n variants included. The four RInt statements use Classical_Prop.classic through Coquelicot.',
-                      gprops=False, extra_obligations=['gprops/C16_layout.v'], seq_obligations=['props/C18.v'], theory_obligations=['TrigSum', 'DiffKernel', 'InterpKernel', 'SpectralConv'],
+                      gprops=False, extra_obligations=['gprops/C16_layout.v'], seq_obligations=[['props/C18.v', 'props/C18_extrema.v']], theory_obligations=['TrigSum', 'DiffKernel', 'InterpKernel', 'SpectralConv'],
                       pre_cmds=[[PY, os.path.join(HERE, 'gen_obj.py'), '--repo', REPO]], nthorough=60,
-                      theorems=['C18_even_is_next_odd', 'C18_always_odd', 'C18_same_object', 'SpectralConv.aliasing_identity', 'SpectralConv.Dspec_aliasing_bound', 'SpectralConv.Dspec_resolved_onwards', 'SpectralConv.kinterp_aliasing_bound', 'SpectralConv.interp_aliasing_bound', 'SpectralConv.trapezoid_rule', 'SpectralConv.trapezoid_exact_RInt', 'SpectralConv.band_limited_exact', 'DiffKernel.Dspec_exact_trigpoly', 'InterpKernel.interp_exact_trigpoly'])
+                      theorems=['C18_even_is_next_odd', 'C18_always_odd', 'C18_same_object', 'C18_extrema.min_R0_on_interpolant', 'C18_extrema.max_elongation_on_interpolant_h0', 'C18_extrema.min_L_grad_B_on_interpolant', 'C18_extrema.B20_variation_on_grid_h0', 'C18_extrema.inverse_scale_length_on_grid', 'SpectralConv.aliasing_identity', 'SpectralConv.Dspec_aliasing_bound', 'SpectralConv.Dspec_resolved_onwards', 'SpectralConv.kinterp_aliasing_bound', 'SpectralConv.interp_aliasing_bound', 'SpectralConv.trapezoid_rule', 'SpectralConv.trapezoid_exact_RInt', 'SpectralConv.band_limited_exact', 'DiffKernel.Dspec_exact_trigpoly', 'InterpKernel.interp_exact_trigpoly'])
 
 
 def check_C01(tier, seed):
@@ -571,14 +571,14 @@ PINS_FOR = {
     'C13': ['determine_helicity', 'convert_to_spline'], 'C12': ['r_singularity_selection'], 'C14': ['to_Fourier', 'get_boundary', 'convert_to_spline'],
     'C15': ['to_vmec', 'to_Fourier'], 'C05': ['spectral_diff_matrix', 'determine_helicity', 'fourier_minimum'],
     'C06': ['spectral_diff_matrix', 'determine_helicity', 'fourier_minimum', 'fourier_interpolation'], 'C07': ['spectral_diff_matrix', 'determine_helicity', 'fourier_minimum'],
-    'C03': ['spectral_diff_matrix', 'fourier_minimum'], 'C08': ['fourier_minimum'], 'C09': ['fourier_minimum'], 'C18': ['spectral_diff_matrix', 'fourier_interpolation'],
+    'C03': ['spectral_diff_matrix', 'fourier_minimum'], 'C08': ['fourier_minimum'], 'C09': ['fourier_minimum'], 'C18': ['spectral_diff_matrix', 'fourier_interpolation', 'fourier_minimum'],
 }
 # checks whose obligations do not read the translated formula programs (object / effect / kernel models): the in-Coq float evaluation of the programs is not part of them
-NO_FLOAT_TIE = {'C16', 'C17', 'C18', 'C20'}
+NO_FLOAT_TIE = {'C16', 'C17', 'C20'}
 # hand-written theories each check depends on (others are not built, so work in progress elsewhere cannot disturb it)
 NEEDS = {
     'C08': ['Expr', 'Equiv', 'Dim'], 'C07': ['Expr', 'Equiv', 'Sign', 'Shift', 'Shallow', 'DiffMat'], 'C05': ['Expr', 'Equiv', 'Sign', 'Shift', 'Shallow', 'DiffMat'],
-    'C04': ['Expr', 'Shallow', 'Series'], 'C11': ['Expr', 'Shallow', 'Series'], 'C13': ['Expr', 'Shallow', 'Quadrant', 'Winding'], 'C19': ['Expr', 'Equiv', 'Dim', 'Sign'], 'C17': ['Expr', 'Effects'], 'C12': ['Expr', 'Equiv', 'Dim', 'Sign', 'Shallow', 'RootSelect', 'Series', 'Newton', 'Bracket', 'FloatOrder'], 'C16': ['Expr', 'Effects', 'ObjModel'], 'C09': ['Expr', 'Shallow', 'Pipeline'], 'C03': ['Expr', 'Shallow', 'Pipeline'], 'C06': ['Expr', 'Equiv', 'Sign', 'Shift', 'Replicate', 'DiffMat', 'TrigSum', 'DiffKernel', 'Bracket', 'InterpKernel'], 'C14': ['Expr', 'Shallow', 'TrigSum'], 'C15': ['Expr', 'Shallow', 'TrigSum', 'VmecEmit'], 'C18': ['Expr', 'ObjModel', 'Equiv', 'Sign', 'Shift', 'Replicate', 'DiffMat', 'Bracket', 'TrigSum', 'DiffKernel', 'InterpKernel', 'EvenKernel', 'SpectralConv'], 'C10': ['Expr', 'Shallow'], 'C01': ['Expr', 'Shallow', 'Series'], 'C02': ['Expr', 'Shallow', 'Newton', 'RootSelect', 'Bracket', 'FloatOrder'],
+    'C04': ['Expr', 'Shallow', 'Series'], 'C11': ['Expr', 'Shallow', 'Series'], 'C13': ['Expr', 'Shallow', 'Quadrant', 'Winding'], 'C19': ['Expr', 'Equiv', 'Dim', 'Sign'], 'C17': ['Expr', 'Effects'], 'C12': ['Expr', 'Equiv', 'Dim', 'Sign', 'Shallow', 'RootSelect', 'Series', 'Newton', 'Bracket', 'FloatOrder'], 'C16': ['Expr', 'Effects', 'ObjModel'], 'C09': ['Expr', 'Shallow', 'Pipeline'], 'C03': ['Expr', 'Shallow', 'Pipeline'], 'C06': ['Expr', 'Equiv', 'Sign', 'Shift', 'Replicate', 'DiffMat', 'TrigSum', 'DiffKernel', 'Bracket', 'InterpKernel'], 'C14': ['Expr', 'Shallow', 'TrigSum'], 'C15': ['Expr', 'Shallow', 'TrigSum', 'VmecEmit'], 'C18': ['Expr', 'Shallow', 'ObjModel', 'Equiv', 'Sign', 'Shift', 'Replicate', 'DiffMat', 'Bracket', 'TrigSum', 'DiffKernel', 'InterpKernel', 'EvenKernel', 'SpectralConv'], 'C10': ['Expr', 'Shallow'], 'C01': ['Expr', 'Shallow', 'Series'], 'C02': ['Expr', 'Shallow', 'Series', 'Newton', 'RootSelect', 'Bracket', 'FloatOrder'],
     'C20': ['Expr', 'Equiv', 'Sign', 'Shift', 'Replicate', 'DiffMat', 'Newton', 'Bracket', 'RootSelect', 'TrigSum', 'DiffKernel', 'InterpKernel', 'EvenKernel', 'FloatOrder', 'NewtonConv'],
 }
 CHECKS = {'C01': check_C01, 'C10': check_C10, 'C06': check_C06, 'C14': check_C14, 'C15': check_C15, 'C18': check_C18, 'C12': check_C12, 'C16': check_C16, 'C17': check_C17, 'C03': check_C03, 'C19': check_C19, 'C09': check_C09, 'C13': check_C13, 'C11': check_C11, 'C02': check_C02, 'C20': check_C20, 'C04': check_C04, 'C08': check_C08, 'C07': check_C07, 'C05': check_C05}
